@@ -26,6 +26,18 @@ theorem unedited_preserved (Q : Quant α) (s : DocState) (c : Composite α) (h :
     save Q s c = .ok s := by
   simp [save, h]
 
+/-- … in terms of histories: a history of attribute edits and read-only operations (anything
+that is not a list-like mutation of a group or of the document) on a freshly opened
+document leaves the image-data section as it is. -/
+theorem unedited_history_preserved (Q : Quant α) (s : DocState) (c : Composite α) (ops : List Op)
+    (hops : ∀ o ∈ ops, o.structural = false) (h : s.dirty = dirtyAfter false ops) :
+    save Q s c = .ok s := by
+  apply unedited_preserved Q s c
+  rw [h]
+  simp only [dirtyAfter, Bool.false_or, List.any_eq_false]
+  intro o ho
+  simp [hops o ho]
+
 /-- Modes / depths the regeneration does not cover: the merged image is left as it is
 (stale, but as valid as before), never replaced by something of another shape. -/
 theorem unsupported_untouched (Q : Quant α) (s : DocState) (c : Composite α)
